@@ -195,7 +195,7 @@ def r19f(ctx, repo):
 
     from ..core.regions import split_conjuncts
 
-    gs = [ast.unparse(c) for t, pol in guards_of(enclosing_stmt(app[0])) if pol for c in split_conjuncts(t)]
+    gs = [ast.unparse(c) for t, pol in guards_of(enclosing_stmt(app[0]), stop=loop) if pol for c in split_conjuncts(t)]
     ok = set(gs) == {"isinstance(%s, ast.Name)" % v, "%s.id not in supported_functions" % v}
     ctx.check(ok, "R19f", fi, enclosing_stmt(app[0]), "names outside the whitelist become dependencies", "the dependency list is filled under `%s`" % " and ".join(gs))
     lst = ast.unparse(app[0].func.value)
